@@ -10,6 +10,7 @@ import traceback
 
 sys.path.insert(0, os.path.dirname(os.path.abspath(__file__)))
 import numpy as np  # noqa: E402
+import ufl  # noqa: E402
 
 import ffx  # noqa: E402
 import inputs  # noqa: E402
@@ -75,7 +76,7 @@ def interior_geometry(con, d, rng):
     return X
 
 
-def check_case(case, seed, entity_mode="random", options_override=None, want_numba=False):
+def check_case(case, seed, entity_mode="random", options_override=None, want_numba=False, exact_ref=None, affine=False):
     out = {"id": case["id"], "code": case["code"], "status": "ok", "kernels": []}
     rng = np.random.default_rng(seed)
     try:
@@ -87,7 +88,8 @@ def check_case(case, seed, entity_mode="random", options_override=None, want_num
             out["status"] = "skipped"
             out["why"] = "expressions are handled by the expression oracle"
             return out
-        forms = [force_degrees(f, default_degree(f)) for f in forms]
+        if exact_ref is None:
+            forms = [force_degrees(f, default_degree(f)) for f in forms]
         cap = ffx.compile_case(forms, options)
     except CaseTimeout:
         raise
@@ -118,6 +120,8 @@ def check_case(case, seed, entity_mode="random", options_override=None, want_num
             for ent in ents:
                 e = [ent] * con["ne"]
                 dd, wvals, cvals, cells = pack_inputs(cap, k, fd, itg, con, rng, scalar)
+                if affine:
+                    dd, cells = affine_geometry(dd, cells, con, itg.domain, rng)
                 if itype == "interior_facet":
                     cells, dd = mirror_cells(cells, dd, con, ent, itg.domain, rng)
                 dd["e"][: len(e)] = e
@@ -129,7 +133,12 @@ def check_case(case, seed, entity_mode="random", options_override=None, want_num
                 A = np.zeros_like(dd["A"])
                 runc.call_kernel(b.kernel(kr["name"]), A, dd["w"], dd["c"], dd["x"], dd["e"], dd["p"])
                 sc = complex if "complex" in scalar else float
-                exp = oracle.reference_tensor(fd.original_form, itype, sid, cells, wvals, cvals, e or [0], scalar=sc,
+                oform = fd.original_form
+                if exact_ref is not None:
+                    # the kernel keeps FFCx's own degree estimate / metadata; the oracle integrates with a rule of
+                    # degree exact_ref (exact for the polynomial integrands of these cases)
+                    oform = ufl.Form([g.reconstruct(metadata={"quadrature_degree": exact_ref}) for g in oform.integrals()])
+                exp = oracle.reference_tensor(oform, itype, sid, cells, wvals, cvals, e or [0], scalar=sc,
                                               diagonal=(k["ir"].part.name == "diagonal"))
                 exp = np.asarray(exp).reshape(-1)
                 tol = (2e-4 if "32" in scalar or "64" == scalar[-2:] and "complex64" == scalar else 1e-9)
@@ -151,6 +160,29 @@ def check_case(case, seed, entity_mode="random", options_override=None, want_num
             kr.update(status="oracle_error", why=f"{type(e).__name__}: {e}", tb=traceback.format_exc()[-800:])
         out["kernels"].append(kr)
     return out
+
+
+def affine_geometry(dd, cells, con, mesh, rng):
+    """replace the random geometry by a random affine image of the reference cell (parallelogram /
+    parallelepiped for tensor-product cells), all nodes of a higher-order geometry included."""
+    import basix
+    cp = cells[0]
+    X = np.asarray(cp.be.points)          # reference positions of the geometry nodes
+    tdim, gdim = cp.tdim, cp.gdim
+    while True:
+        B = np.round(rng.uniform(-1, 1, size=(gdim, tdim)) * 8) / 8 + np.eye(gdim, tdim)
+        if abs(np.linalg.det(B.T @ B)) > 0.2:
+            break
+    b0 = np.round(rng.uniform(-1, 1, size=gdim) * 8) / 8
+    P = X @ B.T + b0
+    nn = P.shape[0]
+    width = len(cells)
+    for s in range(width):
+        blk = np.zeros((nn, 3))
+        blk[:, :gdim] = P
+        dd["x"][s * 3 * nn:(s + 1) * 3 * nn] = blk.reshape(-1)
+    cells = [oracle.Cell(mesh, dd["x"][s * 3 * nn:(s + 1) * 3 * nn]) for s in range(width)]
+    return dd, cells
 
 
 def mirror_cells(cells, dd, con, ent, mesh, rng):
@@ -203,7 +235,8 @@ def main():
                 r = check_expression_case(case, job.get("seed", 0) + i)
             else:
                 r = check_case(case, job.get("seed", 0) + i, entity_mode=job.get("entity_mode", "random"),
-                               options_override=job.get("options_override"))
+                               options_override=job.get("options_override"), exact_ref=job.get("exact_ref"),
+                               affine=job.get("affine", False))
         except CaseTimeout:
             r = {"id": case["id"], "code": case["code"], "status": "timeout", "kernels": []}
         except BaseException as e:  # noqa: BLE001
